@@ -8,6 +8,13 @@ use std::{
 
 pub type TranspositionTable = HashMap<u64, TableEntry, BuildNoHashHasher<u64>>;
 
+/// Deepest iteration of the iterative deepening search.
+///
+/// The longest game the UCI layer accepts (400 plies), plus this depth, plus the longest
+/// possible capture/promotion line of the quiescence search (< 48) must fit in the
+/// 512 entries of the game's state stack.
+pub const MAX_SEARCH_DEPTH: u8 = 64;
+
 #[derive(Clone, Copy, PartialEq, Eq, Debug)]
 enum NodeType {
     Exact,
@@ -345,7 +352,7 @@ pub fn get_best_move_entry(
         return Some((None, Score::MIN + 1, true));
     }
 
-    let mut killer_moves = [None; 32];
+    let mut killer_moves = [None; MAX_SEARCH_DEPTH as usize];
     let mut best_move = None;
     let mut best_score = Score::MIN + 1;
 
@@ -476,7 +483,7 @@ pub fn get_best_move_until_stop(
         starting_depth.min(max_depth.max(1))
     });
 
-    for depth in starting_depth.. {
+    for depth in starting_depth..=MAX_SEARCH_DEPTH {
         let Some((best_move, best_score, is_only_move)) =
             get_best_move_entry(game.clone(), continue_running, depth, table, &mut history)
         else {
@@ -517,5 +524,5 @@ pub fn get_best_move_until_stop(
         }
     }
 
-    unreachable!()
+    found_move
 }
